@@ -37,9 +37,9 @@ Definition extc_b (x : ext_cst) : bool := xkey_b (e_key x) && qdstrings_b (e_val
 Lemma extc_b_ok x : extc_b x = true -> ext_wf x.
 Proof. intros H. apply andb_true_iff in H. destruct H as [H1 H2]. split; [now apply xkey_b_ok|now apply qdstrings_b_ok]. Qed.
 
-Definition exts_b (e : list ext_cst) : bool := forallb extc_b e && nodup_b (map e_key e).
+Definition exts_b (e : list ext_cst) : bool := forallb extc_b e.
 Lemma exts_b_ok e : exts_b e = true -> exts_wf e.
-Proof. intros H. apply andb_true_iff in H. destruct H as [H1 H2]. split; [apply (forallb_Forall extc_b); [apply extc_b_ok|exact H1]|now apply nodup_b_ok]. Qed.
+Proof. apply (forallb_Forall extc_b). apply extc_b_ok. Qed.
 
 Definition head_b (h : head_cst) : bool := numoid_b (h_oid h) && part_b qdescrs_b (h_name h) && part_b ds_b (h_desc h).
 Lemma head_b_ok h : head_b h = true -> head_ok h.
@@ -62,7 +62,6 @@ Proof.
   - destruct (oc_ckind c) as [[a k]|]; [lia|exact I].
   - apply (part_b_ok oids_b); [apply oids_b_ok|assumption].
   - apply (part_b_ok oids_b); [apply oids_b_ok|assumption].
-  - now apply exts_b_ok.
   - now apply exts_b_ok.
 Qed.
 
